@@ -288,7 +288,14 @@ func (x *run) waitAssigned(gen int) {
 			return
 		}
 		if time.Now().After(deadline) {
-			x.c.Inconclusive("splits were not assigned within the watchdog (deploys: %v, last deploy errors: %v, job errors: %v; goroutines: %s)", len(x.cl.Deploys()), lastDeployErrors(x.cl.Deploys(), 3), x.cl.JobErrors(), lib.BlockedSummary())
+			errs := lastDeployErrors(x.cl.Deploys(), 3)
+			for _, e := range errs {
+				// a live worker whose Deploy handler panics cannot be recovered, however often the job retries
+				if strings.Contains(e, "request handler panicked") {
+					x.c.Fail("recovery-deploy-panic", x.wit(), "the job keeps deploying (%d Deploy calls) and never gets to assign the splits: the Deploy handler of a live worker panics: %v", len(x.cl.Deploys()), errs)
+				}
+			}
+			x.c.Inconclusive("splits were not assigned within the watchdog (deploys: %v, last deploy errors: %v, job errors: %v; goroutines: %s)", len(x.cl.Deploys()), errs, x.cl.JobErrors(), lib.BlockedSummary())
 		}
 		time.Sleep(200 * time.Microsecond)
 	}
